@@ -180,39 +180,72 @@ func isDigit(c byte) bool {
 	return c >= '0' && c <= '9'
 }
 
-//go:nocheckptr
+// scanNumber finds the end of the JSON number beginning at src[pos], and tells if it has a fraction or an exponent.
+// Like the native vnumber(), it stops at the first character that can't continue the number ("01" is the number 0
+// followed by '1') and leaves the check of that character to the caller.
+// On failure, ret is a negative types.ParsingError.
+func scanNumber(src string, pos int) (ret int, isFloat bool) {
+	n := len(src)
+	i := pos
+	if i < n && src[i] == '-' {
+		i++
+	}
+	if i >= n {
+		return -int(types.ERR_EOF), false
+	}
+	if !isDigit(src[i]) {
+		return -int(types.ERR_INVALID_CHAR), false
+	}
+	if src[i] == '0' {
+		// no digit can follow a leading zero
+		i++
+	} else {
+		for i < n && isDigit(src[i]) {
+			i++
+		}
+	}
+	if i < n && src[i] == '.' {
+		isFloat = true
+		i++
+		if i >= n {
+			return -int(types.ERR_EOF), false
+		}
+		if !isDigit(src[i]) {
+			return -int(types.ERR_INVALID_CHAR), false
+		}
+		for i < n && isDigit(src[i]) {
+			i++
+		}
+	}
+	if i < n && (src[i] == 'e' || src[i] == 'E') {
+		isFloat = true
+		i++
+		if i < n && (src[i] == '+' || src[i] == '-') {
+			i++
+		}
+		if i >= n {
+			return -int(types.ERR_EOF), false
+		}
+		if !isDigit(src[i]) {
+			return -int(types.ERR_INVALID_CHAR), false
+		}
+		for i < n && isDigit(src[i]) {
+			i++
+		}
+	}
+	return i, isFloat
+}
+
 func decodeInt64(src string, pos int) (ret int, v int64, err error) {
-	sp := rt.IndexCharUint(src, pos)
-	se := rt.StrBoundary(src)
-	if uintptr(sp) >= se {
-		return -int(types.ERR_EOF), 0, nil
+	ret, isFloat := scanNumber(src, pos)
+	if ret < 0 {
+		return ret, 0, nil
+	}
+	if isFloat {
+		return -int(types.ERR_INVALID_NUMBER_FMT), 0, nil
 	}
 
-	if c := *(*byte)(unsafe.Pointer(sp)); c == '-' {
-		sp += 1
-	}
-	if sp >= se {
-		return -int(types.ERR_EOF), 0, nil
-	}
-
-	for ; sp < se; sp += uintptr(1) {
-		if !isDigit(*(*byte)(unsafe.Pointer(sp))) {
-			break
-		}
-	}
-
-	if sp < se {
-		if c := *(*byte)(unsafe.Pointer(sp)); c == '.' || c == 'e' || c == 'E' {
-			return -int(types.ERR_INVALID_NUMBER_FMT), 0, nil
-		}
-	}
-
-	var vv string
-	ret = int(uintptr(sp) - uintptr((*rt.GoString)(unsafe.Pointer(&src)).Ptr))
-	(*rt.GoString)(unsafe.Pointer(&vv)).Ptr = rt.IndexChar(src, pos)
-	(*rt.GoString)(unsafe.Pointer(&vv)).Len = ret - pos
-
-	v, err = strconv.ParseInt(vv, 10, 64)
+	v, err = strconv.ParseInt(src[pos:ret], 10, 64)
 	if err != nil {
 		//NOTICE: allow overflow here
 		if err.(*strconv.NumError).Err == strconv.ErrRange {
@@ -220,42 +253,16 @@ func decodeInt64(src string, pos int) (ret int, v int64, err error) {
 		}
 		return -int(types.ERR_INVALID_CHAR), 0, err
 	}
-
-	runtime.KeepAlive(src)
 	return ret, v, nil
 }
 
-func isNumberChars(c byte) bool {
-	return (c >= '0' && c <= '9') || c == '+' || c == '-' || c == 'e' || c == 'E' || c == '.'
-}
-
-//go:nocheckptr
 func decodeFloat64(src string, pos int) (ret int, v float64, err error) {
-	sp := rt.IndexCharUint(src, pos)
-	se := rt.StrBoundary(src)
-	if uintptr(sp) >= se {
-		return -int(types.ERR_EOF), 0, nil
+	ret, _ = scanNumber(src, pos)
+	if ret < 0 {
+		return ret, 0, nil
 	}
 
-	if c := *(*byte)(unsafe.Pointer(sp)); c == '-' {
-		sp += 1
-	}
-	if sp == se {
-		return -int(types.ERR_EOF), 0, nil
-	}
-
-	for ; sp < se; sp += uintptr(1) {
-		if !isNumberChars(*(*byte)(unsafe.Pointer(sp))) {
-			break
-		}
-	}
-
-	var vv string
-	ret = int(uintptr(sp) - uintptr((*rt.GoString)(unsafe.Pointer(&src)).Ptr))
-	(*rt.GoString)(unsafe.Pointer(&vv)).Ptr = rt.IndexChar(src, pos)
-	(*rt.GoString)(unsafe.Pointer(&vv)).Len = ret - pos
-
-	v, err = strconv.ParseFloat(vv, 64)
+	v, err = strconv.ParseFloat(src[pos:ret], 64)
 	if err != nil {
 		//NOTICE: allow overflow here
 		if err.(*strconv.NumError).Err == strconv.ErrRange {
@@ -263,8 +270,6 @@ func decodeFloat64(src string, pos int) (ret int, v float64, err error) {
 		}
 		return -int(types.ERR_INVALID_CHAR), 0, err
 	}
-
-	runtime.KeepAlive(src)
 	return ret, v, nil
 }
 
@@ -353,7 +358,7 @@ func DecodeValue(src string, pos int) (ret int, v types.JsonState) {
 			return ret, types.JsonState{Vt: types.ValueType(ret)}
 		}
 		return ret, types.JsonState{Vt: types.V_FALSE}
-	case '-', '+', '0', '1', '2', '3', '4', '5', '6', '7', '8', '9':
+	case '-', '0', '1', '2', '3', '4', '5', '6', '7', '8', '9':
 		var iv int64
 		var err error
 		ret, iv, err = decodeInt64(src, pos)
@@ -378,69 +383,9 @@ func DecodeValue(src string, pos int) (ret int, v types.JsonState) {
 	}
 }
 
-//go:nocheckptr
 func skipNumber(src string, pos int) (ret int) {
-	sp := rt.IndexCharUint(src, pos)
-	se := rt.StrBoundary(src)
-	if uintptr(sp) >= se {
-		return -int(types.ERR_EOF)
-	}
-
-	if c := *(*byte)(unsafe.Pointer(sp)); c == '-' {
-		sp += 1
-	}
-	ss := sp
-
-	var pointer bool
-	var exponent bool
-	var lastIsDigit bool
-	var nextNeedDigit = true
-
-	for ; sp < se; sp += uintptr(1) {
-		c := *(*byte)(unsafe.Pointer(sp))
-		if isDigit(c) {
-			lastIsDigit = true
-			nextNeedDigit = false
-			continue
-		} else if nextNeedDigit {
-			return -int(types.ERR_INVALID_CHAR)
-		} else if c == '.' {
-			if !lastIsDigit || pointer || sp == ss {
-				return -int(types.ERR_INVALID_CHAR)
-			}
-			pointer = true
-			lastIsDigit = false
-			nextNeedDigit = true
-			continue
-		} else if c == 'e' || c == 'E' {
-			if !lastIsDigit || exponent {
-				return -int(types.ERR_INVALID_CHAR)
-			}
-			if sp == se-1 {
-				return -int(types.ERR_EOF)
-			}
-			exponent = true
-			lastIsDigit = false
-			nextNeedDigit = false
-			continue
-		} else if c == '-' || c == '+' {
-			if prev := *(*byte)(unsafe.Pointer(sp - 1)); prev != 'e' && prev != 'E' {
-				return -int(types.ERR_INVALID_CHAR)
-			}
-			lastIsDigit = false
-			nextNeedDigit = true
-			continue
-		} else {
-			break
-		}
-	}
-
-	if nextNeedDigit {
-		return -int(types.ERR_EOF)
-	}
-
-	runtime.KeepAlive(src)
-	return int(uintptr(sp) - uintptr((*rt.GoString)(unsafe.Pointer(&src)).Ptr))
+	ret, _ = scanNumber(src, pos)
+	return ret
 }
 
 //go:nocheckptr
@@ -547,7 +492,7 @@ func SkipValue(src string, pos int) (ret int, start int) {
 		ret = decodeTrue(src, pos)
 	case 'f':
 		ret = decodeFalse(src, pos)
-	case '-', '+', '0', '1', '2', '3', '4', '5', '6', '7', '8', '9':
+	case '-', '0', '1', '2', '3', '4', '5', '6', '7', '8', '9':
 		ret = skipNumber(src, pos)
 	default:
 		ret = -int(types.ERR_INVALID_CHAR)
